@@ -1,0 +1,25 @@
+//go:build verif
+
+package desync
+
+import "sync/atomic"
+
+// VerifYieldHook, when set, is called at every scheduling point with the name
+// of the site. Used by the verification harness (built with -tags verif) to
+// drive goroutine interleavings and to cancel at a chosen point.
+var verifYieldHook atomic.Value // of func(string)
+
+// VerifSetYieldHook installs (or with nil removes) the hook.
+func VerifSetYieldHook(f func(site string)) {
+	if f == nil {
+		verifYieldHook.Store(func(string) {})
+		return
+	}
+	verifYieldHook.Store(f)
+}
+
+func verifYield(site string) {
+	if f, ok := verifYieldHook.Load().(func(string)); ok {
+		f(site)
+	}
+}
